@@ -1,6 +1,9 @@
 package main
 
 import (
+	"os"
+
+	"github.com/reeflective/readline"
 	"github.com/reeflective/readline/inputrc"
 )
 
@@ -40,6 +43,46 @@ func init() {
 		o.int(n)
 		for _, k := range all {
 			o.runes(k)
+		}
+	}
+}
+
+func init() {
+	// every default binding: keymap, sequence, action, macro flag
+	ops["defbinds"] = func(t *toks, o *out) {
+		n := 0
+		for _, km := range inputrc.DefaultBinds() {
+			n += len(km)
+		}
+		o.int(n)
+		for name, km := range inputrc.DefaultBinds() {
+			for k, b := range km {
+				o.str(name)
+				o.runes([]rune(k))
+				o.str(b.Action)
+				o.bool(b.Macro)
+			}
+		}
+	}
+}
+
+func init() {
+	// the effective binds of a fresh shell (inputrc defaults + builtin keymaps)
+	ops["effbinds"] = func(t *toks, o *out) {
+		os.Setenv("INPUTRC", "/dev/null")
+		sh := readline.NewShell()
+		n := 0
+		for _, km := range sh.Config.Binds {
+			n += len(km)
+		}
+		o.int(n)
+		for name, km := range sh.Config.Binds {
+			for k, b := range km {
+				o.str(name)
+				o.runes([]rune(k))
+				o.str(b.Action)
+				o.bool(b.Macro)
+			}
 		}
 	}
 }
